@@ -5,11 +5,7 @@ NOT_APPLICABLE = [
     {"property_id": "C15", "reason": "pure function of a key (JWK members, thumbprint input, signature encoding): no nondeterminism to simulate; its protocol-visible consequences are enforced as side coverage by the model CA's independent verifier under C04/C05"},
     {"property_id": "C18", "reason": "chain building, trust-anchor and host-name validation happen inside reqwest/native-tls/OpenSSL below RequestBuilder::send, exactly the layer the transport seam replaces; exercising it needs real sockets and a real TLS server, i.e. observation of real executions, not simulation"},
     {"property_id": "C19", "reason": "totality over configuration inputs (malformed TOML, overflowing periods, cycles): decided by input generation/fuzzing; no schedule, clock or fault is quantified"},
-    {"property_id": "C20", "reason": "the subject is external programs (mkdir, echo, chmod, rm, pkill, git, a daemonising tacd) reached by fork/exec; behind the process seam they would be my models, in front of it kernel-scheduled real processes the simulator neither controls nor replays"},
-    chk("C13", "acmed-sim", "exploration",
-        "invariant at the storage seam, which performs the real open(2)/chown(2): every file written in seeded create/rewrite/restart histories is stat(2)ed; mode at creation == configured & ~umask, unchanged by rewrites; owner as configured by name or number",
-        TRUST + "; runs as root in the sandbox; weakest fit for the technique (no schedule or fault in the statement)", SIM + "; invariant over seeded histories", "DESIGN.md 7 (C13)"),
-]
+    {"property_id": "C20", "reason": "the subject is external programs (mkdir, echo, chmod, rm, pkill, git, a daemonising tacd) reached by fork/exec; behind the process seam they would be my models, in front of it kernel-scheduled real processes the simulator neither controls nor replays"},]
 
 def chk(pid, engine, category, text, note, technique, design_ref):
     return {
@@ -49,4 +45,7 @@ CHECKS = [
     chk("C08", "acmed-sim", "fault_enumeration",
         "exhaustive single-error-run grid: every POST position of a two-identifier issuance x 29 error answers x run lengths 1..12, plus never-ready objects at every polling phase; oracle = the CA's per-URL transmission log (count, newest nonce, identical content, outcome)",
         TRUST, SIM + "; exhaustive fault grid", "DESIGN.md 7 (C08)"),
+    chk("C13", "acmed-sim", "exploration",
+        "invariant at the storage seam, which performs the real open(2)/chown(2): every file written in seeded create/rewrite/restart histories is stat(2)ed; mode at creation == configured & ~umask, unchanged by rewrites; owner as configured by name or number",
+        TRUST + "; runs as root in the sandbox; weakest fit for the technique (no schedule or fault in the statement)", SIM + "; invariant over seeded histories", "DESIGN.md 7 (C13)"),
 ]
